@@ -201,3 +201,27 @@ package mqtt
 // verif:func mqtt.Server.processPingreq modifies=all
 //@ requires cl != nil
 //@ ensures C07-pingresp-or-error: r0 == nil ==> sentOne(cl) && lastSent(cl).FixedHeader.Type == Pingresp
+
+// ---- C24: topic alias tables ----
+// Outbound table invariant: aliases are 1..cursor, cursor <= maximum, distinct topics have distinct aliases.
+// verif:def outInv(a *OutboundTopicAliases) bool = a.internal != nil && a.cursor <= uint32(a.maximum) && (forall t string :: has(a.internal, t) ==> 1 <= a.internal[t] && uint32(a.internal[t]) <= a.cursor) && (forall t string, u string :: has(a.internal, t) && has(a.internal, u) && a.internal[t] == a.internal[u] ==> t == u)
+// verif:func mqtt.OutboundTopicAliases.Set
+//@ requires outInv(a)
+//@ modifies entries(a.internal), a.cursor
+//@ ensures none-when-disabled: a.maximum == 0 ==> r0 == 0 && !r1
+//@ ensures within-maximum: r0 <= a.maximum
+//@ ensures existing-reused: old(has(a.internal, topic)) ==> r1 && r0 == old(a.internal[topic]) && r0 > 0
+//@ ensures existed-flag-exact: r1 <==> (a.maximum > 0 && old(has(a.internal, topic)))
+//@ ensures bound-when-returned: r0 > 0 ==> has(a.internal, topic) && a.internal[topic] == r0
+//@ ensures other-bindings-kept: forall t string :: t != topic ==> (has(a.internal, t) <==> old(has(a.internal, t))) && a.internal[t] == old(a.internal[t])
+//@ ensures table-unchanged-when-refused: r0 == 0 ==> (has(a.internal, topic) <==> old(has(a.internal, topic))) && a.cursor == old(a.cursor)
+//@ ensures invariant-kept: outInv(a)
+
+// verif:func mqtt.InboundTopicAliases.Set
+//@ requires a.internal != nil
+//@ modifies entries(a.internal)
+//@ ensures resolves-last-binding: a.maximum > 0 && topic == "" && old(has(a.internal, id)) ==> r0 == old(a.internal[id]) && a.internal[id] == old(a.internal[id])
+//@ ensures binds-new-topic: a.maximum > 0 && topic != "" ==> r0 == topic && has(a.internal, id) && a.internal[id] == topic
+//@ ensures unbound-alias-yields-empty: topic == "" && !old(has(a.internal, id)) ==> r0 == ""
+//@ ensures disabled-passes-topic-through: a.maximum == 0 ==> r0 == topic && (has(a.internal, id) <==> old(has(a.internal, id)))
+//@ ensures other-bindings-kept: forall k uint16 :: k != id ==> (has(a.internal, k) <==> old(has(a.internal, k))) && a.internal[k] == old(a.internal[k])
